@@ -1301,6 +1301,35 @@ func (c *Ctx) allCallersHold(fn *ssa.Function, ownerVal ssa.Value, gp guardPair,
 		if pidx >= 0 && pidx < len(args) {
 			ap = AccessPath(args[pidx]) + suffix
 		}
+		// the owner may be a helper structure that holds a copy of the guarded reference (filer{dict: d.dict}): the
+		// lock that matters is that of the object the reference was copied from, where the structure is made
+		if c.holdsLockAP(caller, e.Site, ap, gp, write) == "" && pidx >= 0 && pidx < len(args) {
+			if al, isA := rootOf(args[pidx]).(*ssa.Alloc); isA && al.Parent() == caller {
+				for _, r := range refsOf(al) {
+					fa, isFA := r.(*ssa.FieldAddr)
+					if !isFA {
+						continue
+					}
+					_, hf, _ := fieldOf(fa)
+					if hf == nil || c.aliasFields()[hf] == nil {
+						continue
+					}
+					for _, rr := range refsOf(fa) {
+						st, isS := rr.(*ssa.Store)
+						if !isS || st.Addr != ssa.Value(fa) {
+							continue
+						}
+						if ld, isL := st.Val.(*ssa.UnOp); isL {
+							if _, _, src := fieldOf(ld.X); src != nil {
+								if c.holdsLockAP(caller, e.Site, AccessPath(src), gp, write) != "" {
+									ap = AccessPath(src)
+								}
+							}
+						}
+					}
+				}
+			}
+		}
 		if c.holdsLockAP(caller, e.Site, ap, gp, write) == "" {
 			// the caller is a private closure: the question moves to the places where it is called
 			h := exactHelper(caller)
